@@ -51,7 +51,7 @@ package asm
 //@   assigns a.n, a.code
 
 //@ func (*Emitter).EmitBytes
-//@   property C19
+//@   property C19 C15
 //@   modular
 //@   requires a.n >= 0 && a.n <= len(a.code)
 //@   panics !isnil(a.code) && a.n+len(b) > len(a.code)
@@ -62,9 +62,24 @@ package asm
 //@   ensures !isnil(a.code) ==> all(j, int, 0 <= j && j < len(b) ==> a.code[old(a.n)+j] == b[j])
 //@   ensures all(j, int, 0 <= j && j < len(a.code) && (j < old(a.n) || j >= old(a.n)+len(b)) ==> a.code[j] == old(a.code[j]))
 //@   ensures a.flagsTracker == old(a.flagsTracker)
+//@   ensures !a.generateText ==> len(a.lines) == old(len(a.lines)) && a.baseSet == old(a.baseSet)
+//@   ensures a.generateText ==> !a.baseSet && len(a.lines) == EB_L0(a)+(len(b)+15)/16
+//@   ensures all(k, int, 0 <= k && k < old(len(a.lines)) ==> a.lines[k] == old(a.lines[k]))
+//@   ensures a.generateText && old(a.baseSet) ==> LT(a, old(len(a.lines))) == 6 && BC(a, old(len(a.lines))) == 0 && a.lines[old(len(a.lines))].address == old(a.address)
+//@   ensures a.generateText ==> all(j, int, 0 <= j && j < (len(b)+15)/16 ==> LT(a, EB_L0(a)+j) == 7 && a.lines[EB_L0(a)+j].address == old(a.address)+uint32(16*j) && BC(a, EB_L0(a)+j) == ite(16*j+16 <= len(b), 16, len(b)-16*j))
+//@   ensures a.generateText && old(TILES(a)) ==> TILES_A(a)
+//@   ensures a.generateText && old(TILES(a)) ==> TILES_L(a)
+//@   ensures a.generateText && old(TILES(a)) ==> TILES_C(a)
+//@   ensures a.generateText && old(TILES(a)) ==> TILES_E(a)
 //@   assigns a.n, a.code, a.address, a.lines, a.baseSet
-//@   loop 1 invariant true
+//@   loop 1 invariant builderlen(s) >= 3 && (builderlen(s) > 3) == ((rangeindex+1)&15 != 0) && blen == len(b)
+//@   loop 1 invariant int(cl.asmLineType) == 7 && cl.address == a.address+uint32((rangeindex+1)&^15) && cl.byteCount == len(b)-((rangeindex+1)&^15)
+//@   loop 1 invariant !a.baseSet && len(a.lines) == EB_L0(a)+(rangeindex+1)/16
+//@   loop 1 invariant all(k, int, 0 <= k && k < old(len(a.lines)) ==> a.lines[k] == old(a.lines[k]))
+//@   loop 1 invariant old(a.baseSet) ==> LT(a, old(len(a.lines))) == 6 && BC(a, old(len(a.lines))) == 0 && a.lines[old(len(a.lines))].address == a.address
+//@   loop 1 invariant all(j, int, 0 <= j && j < (rangeindex+1)/16 ==> LT(a, EB_L0(a)+j) == 7 && a.lines[EB_L0(a)+j].address == a.address+uint32(16*j) && BC(a, EB_L0(a)+j) == 16)
 //@   loop 1 modifies a.lines, s, cl
+//@ define EB_L0(a) (old(len(a.lines))+ite(old(a.baseSet), 1, 0))
 
 //@ func (*Emitter).Label
 //@   property C19 C06
@@ -1507,3 +1522,36 @@ package asm
 //@   ensures all(j, int, 0 <= j && j < len(a.code) && (j < old(a.n) || j >= old(a.n)+1) ==> a.code[j] == old(a.code[j]))
 //@   ensures a.flagsTracker == old(a.flagsTracker)
 //@   assigns a.n, a.code, a.address, a.lines, a.baseSet
+
+// ---- listings (C15) ----
+// Line types by number (checked against the constants in WriteHexTo's contract):
+// 0 ins1, 1 ins2, 2 ins2Label, 3 ins3, 4 ins3Label, 5 ins4, 6 base, 7 db, 8 comment, 9 label.
+// TILES: the listing records tile the emitted bytes — every record starts where the previous one ends (records
+// without bytes have byteCount 0), the first starts at the base address, the last ends at the current address,
+// the byte count of an instruction record is the one its type implies, and everything lies inside code[0:n].
+
+//@ define LT(a, k) int(a.lines[k].asmLineType)
+//@ define BC(a, k) a.lines[k].byteCount
+//@ define LINEOK(a, k) (0 <= LT(a, k) && LT(a, k) <= 9 && 0 <= BC(a, k) && BC(a, k) <= 16 && (LT(a, k) == 0 ==> BC(a, k) == 1) && (LT(a, k) == 1 || LT(a, k) == 2 ==> BC(a, k) == 2) && (LT(a, k) == 3 || LT(a, k) == 4 ==> BC(a, k) == 3) && (LT(a, k) == 5 ==> BC(a, k) == 4) && (LT(a, k) == 7 ==> BC(a, k) >= 1) && (LT(a, k) == 6 || LT(a, k) >= 8 ==> BC(a, k) == 0) && a.lines[k].address-a.base <= uint32(a.n) && int(a.lines[k].address-a.base)+BC(a, k) <= a.n)
+//@ define TILES_A(a) (!isnil(a.code) && 0 <= a.n && a.n <= len(a.code) && len(a.code) <= 0x1000000 && a.address-a.base == uint32(a.n))
+//@ define TILES_L(a) all(k, int, 0 <= k && k < len(a.lines) ==> LINEOK(a, k))
+//@ define TILES_C(a) all(k, int, 0 <= k && k+1 < len(a.lines) ==> a.lines[k+1].address == a.lines[k].address+uint32(BC(a, k)))
+//@ define TILES_E(a) ((len(a.lines) > 0 ==> a.lines[0].address == a.base && a.lines[len(a.lines)-1].address+uint32(BC(a, len(a.lines)-1)) == a.address) && (len(a.lines) == 0 ==> a.n == 0))
+//@ define TILES(a) (TILES_A(a) && TILES_L(a) && TILES_C(a) && TILES_E(a))
+
+//@ func (*Emitter).WriteHexTo
+//@   property C15
+//@   requires TILES(a)
+//@   ensures lineIns1 == 0 && lineIns2 == 1 && lineIns2Label == 2 && lineIns3 == 3 && lineIns3Label == 4 && lineIns4 == 5 && lineBase == 6 && lineDB == 7 && lineComment == 8 && lineLabel == 9
+//@   assigns nothing
+//@   loop 1 invariant true
+//@   loop 1 modifies line
+//@   loop 2 invariant true
+//@   loop 2 modifies oa, xb
+
+//@ func (*Emitter).WriteTextTo
+//@   property C15
+//@   requires TILES(a)
+//@   assigns nothing
+//@   loop 1 invariant true
+//@   loop 1 modifies line
